@@ -51,7 +51,7 @@ package util
 //@   ensures [same-table-unless-empty] (len(v) > 0 ==> result == v) && (len(v) == 0 ==> len(result) == 0 && result != nil)
 
 //@ func ValidateAgainstSingleSchema
-//@   props C14
+//@   props C14 C05
 //@   marks reterr != nil ==> len(errMsg(reterr)) > 0
 //@   ensures [validates-exactly-the-given-values] (reterr == nil) == schemaOK(values, schemaJSON)
 
